@@ -21,6 +21,10 @@ func generate(tier string, r *rng.R) []fw.Case {
 		case i%5 == 2:
 			// a task-manager command round trip fails inside a transition (REAL bodies), then the run is closed some way
 			cs = append(cs, envh.GenBodyFailureCase(r.Fork()))
+		case i%7 == 1:
+			// calls whose trigger and await weights lie on different sides of 0 at one moment of the run bracket,
+			// next to hooks triggered at the await weight: what each hook sees, and how often it runs
+			cs = append(cs, envh.GenCrossPassCase(r.Fork()))
 		case i%2 == 0:
 			// the same walk with the REAL task-level bodies of CONFIGURE / START / STOP / RESET
 			f := r.Fork()
